@@ -77,7 +77,8 @@ impl IterFrom {
 }
 
 // ---- the per-directory iterator (src/sys/fs/entry_iter.rs): a queue of results; cache / sort / dirs_first / files_first re-arrange
-// what is left and mark the iterator cached
+// what is left and mark the iterator cached.  ASSUMED[entry-iter]: proved on the real bodies in unit entry_iter, where rest() is
+// `out()` and arrange(Sorted / DirsFirst / FilesFirst, cmp, s) is sorted_by(ord_of(cmp), s) / sorted(dirs and errors) + sorted(rest) / the reverse
 pub enum Arr { Sorted, DirsFirst, FilesFirst }
 pub uninterp spec fn arrange(m: Arr, f: SortFn, s: Seq<Out>) -> Seq<Out>;
 #[verifier::external_body]
@@ -401,7 +402,7 @@ impl EntriesIter {
             }
         }
 //@ endins
-//@ ins after ⟦self.deferred.push(if keep { Some(entry) } else { None });⟧
+//@ ins before#-1 re⟦return None;⟧
             proof {
                 assert(keep == keeps(o, f, entry, depth as int));
                 assert(tail(o, self.deferred@, depth as int) == mee);
